@@ -120,9 +120,7 @@ def write_bigwig(path, chrom_sizes, signals):
 def onehot_np(seq, alphabet="ACGT", dtype="int8"):
 	"""(len(alphabet), L) one-hot of an upper/lower-case string; other chars -> 0."""
 	X = numpy.zeros((len(alphabet), len(seq)), dtype=dtype)
-	idx = {c: i for i, c in enumerate(alphabet)}
-	for j, c in enumerate(seq.upper()):
-		i = idx.get(c)
-		if i is not None:
-			X[i, j] = 1
+	codes = numpy.frombuffer(seq.upper().encode("ascii", "replace"), dtype="uint8")
+	for i, c in enumerate(alphabet):
+		X[i, codes == ord(c)] = 1
 	return X
